@@ -46,7 +46,7 @@ CHECKS = {
             dict(pkg="gate", run="^FuzzC09$", kind="fuzz", seconds=60),
         ],
         rule="pre-drawn scenarios on the public open_game_manager API: 1..4 set-ups of 1..10 participants with fresh game counts, ready signals in every order/subset with repetitions and unknown ids, re-set-up with signals still pending or unprocessed, rebuild from GetState(), and (timeout leg, executed side by side) real 1-2 s timeout expiry; oracle = firing log obligations (at most once per set-up, not before the last missing signal unless the timeout elapsed, reported game count/participants/all ready, superseded set-up silent, unknown rejected without state change); non-trivial = >=2 participants and (duplicate | unknown | superseding set-up with pending signals | timeout firing | rebuild); distinct = distinct op sequences",
-        mandatory=dict(quick=["dup", "unknown", "supersede_pending", "timeout_fire", "rebuild", "all_ready_fire", "parts_1", "parts_10"]),
+        mandatory=dict(quick=["empty_setup", "dup", "unknown", "supersede_pending", "timeout_fire", "rebuild", "all_ready_fire", "parts_1", "parts_10"]),
         assumptions=["firing is looked for during a bounded window (30 ms grace after the last operation, 1.5 s margin around timeouts); monotonic time only as a lower bound"],
     ),
     "C02": dict(
@@ -133,9 +133,12 @@ CHECKS = {
     "C12": dict(
         parts=[dict(pkg="table", run="^TestC12$",
                     quick=dict(shards=4, checks=150, timeout=300),
-                    thorough=dict(shards=16, checks=2500, timeout=1800))],
-        rule='cases = generated histories with a drawn blind schedule: UpdateBlind between hands (before the open trigger), at in-hand decision points, breaks (-1) between hands and during hands, resume from a break, tables created on a break; oracle: options handed to the backend, hand meta and published game blind level = values in force when the harness released the open trigger; ante/blinds actually charged = min(amount, stack) per position; mid-hand updates change only later hands; no open and no button movement on a break; pause after a hand whose level became a break; non-trivial = a blind update or a break; distinct = distinct abstract traces',
-        mandatory=dict(quick=['update_inhand', 'update_between', 'update_same_level_number', 'update_while_hand_is_created', 'update_in_first_snapshot_callback', 'break_after_hand', 'break_no_open', 'resume_from_break', 'created_on_break', 'ante_checked', 'blinds_checked']),
+                    thorough=dict(shards=16, checks=2500, timeout=1800)),
+               dict(pkg="table", run="^TestC12Retry$",
+                    quick=dict(shards=4, checks=3, timeout=300),
+                    thorough=dict(shards=16, checks=12, timeout=900))],
+        rule='retry part (c12r, shared with C07): the gate fires while blinds are unset, the first open attempt fails, a drawn 1-3 step blind script lands inside the 3 s retry window; final break => no hand opens, final valid level => hand 1 is created with exactly that level (not the blinds of the failed attempt); cases = generated histories with a drawn blind schedule: UpdateBlind between hands (before the open trigger), at in-hand decision points, breaks (-1) between hands and during hands, resume from a break, tables created on a break; oracle: options handed to the backend, hand meta and published game blind level = values in force when the harness released the open trigger; ante/blinds actually charged = min(amount, stack) per position; mid-hand updates change only later hands; no open and no button movement on a break; pause after a hand whose level became a break; non-trivial = a blind update or a break; distinct = distinct abstract traces',
+        mandatory=dict(quick=['retry_final_valid', 'retry_final_break', 'update_inhand', 'update_between', 'update_same_level_number', 'update_while_hand_is_created', 'update_in_first_snapshot_callback', 'break_after_hand', 'break_no_open', 'resume_from_break', 'created_on_break', 'ante_checked', 'blinds_checked']),
         assumptions=ASSUME_COMMON,
     ),
     "C13": dict(
